@@ -5,7 +5,8 @@
   error is the specification's location list plus REPEATS of locations already in it (`Rep`), which is what the
   `_seen_fragments` rebinding of `collect_fields` causes (a node collected twice into its group).
 -/
-import PyGqlModel.Props.C04_sim
+import PyGqlModel.Lemmas.C04Sim
+import PyGqlModel.Props.C04_refine
 
 set_option linter.unusedSimpArgs false
 set_option linter.unusedVariables false
@@ -313,5 +314,18 @@ theorem exec_refines_spec (s : SchemaD) (doc : Doc) (vars : Vars) (w : World) (r
     (cf fuel : Nat) (root : String) (path : Path) (sels : List Sel) :
     ExecRefinesSpecUpToLocations s doc vars w cf fuel root path sels :=
   fun d es h => executeFields_sim s doc vars w rk ek B hrk cf fuel root path sels sels d es (Rep.refl _) h
+
+
+/-- the same, from the decidable certificate that the driver evaluates on every accepted document -/
+theorem exec_refines_spec_certified (s : SchemaD) (doc : Doc) (vars : Vars) (w : World) (h : rankedB doc = true)
+    (cf fuel : Nat) (root : String) (path : Path) (sels : List Sel) :
+    ExecRefinesSpecUpToLocations s doc vars w cf fuel root path sels :=
+  exec_refines_spec s doc vars w _ _ _ (ranked_of_rankedB doc h).1 cf fuel root path sels
+
+/-- non-vacuity: the quirk witness `{ ... on Query { ...F } ...F }  fragment F on Query { a }` is certified, the model
+    DOES respond on it, and the theorem applies -/
+example : rankedB qDoc = true := by decide
+example : (match executeFields qSchema qDoc [] constWorld 5 5 "Query" []
+    [.inline (some "Query") [] [.spread "F" []], .spread "F" []] with | .ok _ => true | .error _ => false) = true := by decide
 
 end PyGql.Props.C04
